@@ -346,7 +346,7 @@ def check_run(fs, ts, ys, info, fails, where):
                           "not_False_on_false_set": wrong_f, "error": bad, "run": where})
             return n
     tt = type_test_separating(fs, ts)
-    if tt is not None and str(info.get("stopped_by", "")).startswith("raised"):
+    if tt is not None and str(info.get("stopped_by", "")).startswith("raised") and not ys:     # (an example's own exception met LATER in the stream is the example's business)
         fails.append({"kind": "construct() raised although a built-in type test separates the sets", "false_set": repr(fs), "true_set": repr(ts), "type_test": tt,
                       "error": info["stopped_by"], "run": where})
         return n + 1
@@ -428,6 +428,22 @@ def search(payload):
         if len(fails) > before:
             fails[-1]["history"] = "requests made before in this process: " + "; ".join(f"construct({hpairs[j][0]!r}, {hpairs[j][1]!r})" for j in seq[max(0, step - 4):step])
             break
+    # example sets given as OTHER finite re-iterable collections (range, deque, dict views, generators are not re-iterable and not used), and an
+    # example whose truth value cannot be taken (bool(x) raises TypeError): whatever is yielded must separate the sets
+    import collections as _col
+
+    class NoTruthValue:
+        def __bool__(self):
+            raise TypeError("no truth value")
+
+        def __repr__(self):
+            return "NoTruthValue()"
+    odd = [(range(0, 3), ["a", "b"]), (["a", "b"], range(0, 3)), (_col.deque([0, 5]), ["a"]), ({0: 1, 2: 3}.keys(), ["a", ""]), ({"k": 0, "l": 2}.values(), [None]), ((0, 0.0), _col.deque(["x"])),
+           (frozenset({0, 1}), range(5, 7)), ([NoTruthValue()], [1, "a"]), ([NoTruthValue(), None], [1, 2]), ([0], [NoTruthValue()])]
+    for fs_, ts_ in odd:
+        ys, info = run_construct(fs_, ts_, rounds=2, max_yields=60, seconds=30)
+        total_yields += len(ys)
+        n += check_run(list(fs_), list(ts_), ys, info, fails, f"rounds 0-1, example sets given as {type(fs_).__name__} / {type(ts_).__name__}")
     fails.sort(key=lambda f: (f["false_set"] == "[]") + (f["true_set"] == "[]"))     # prefer witnesses with two non-empty sets
     return {"evaluations": n, "failures": fails[:5], "known_hits": [], "set_pairs": len(pairs), "yields_checked": total_yields,
             "round2_yields_checked": r2_yields, "samples": samples}
